@@ -8,14 +8,14 @@ KM = K + "; float `%` path: nightly MIR -> SMT-LIB2 (QF_FPBV) decided by z3 and 
 SL = "; relational float obligations are cut into 2^16-phase slice families (quick: boundary + VERIF_SEED slices, thorough: all 256)"
 CLAIMED = {
  "C01": dict(text="Solver verdicts over every counter value (2^24) and every f32 level for range, phase-wise bounds, exact joint levels and 0.5% curve fidelity of the normalised segments (oracle curve generated at run time); monotonicity within a phase on 2^16-phase slices of both tables. Inductive over histories: tick() is shown to store calc_value() of a state satisfying the invariant, from any state satisfying it.",
-   note="Monotonicity is decided for the normalised curves (start 0 / 1); for stretched segments it rests on value = start + (target-start)*normalised being one affine float expression (monotone rounding). Quick covers boundary and seeded slices, thorough all 2^24 positions. Reference RC curves come from lib/oracle.py (documented formula, Python math.exp).",
+   note="Monotonicity is decided for the normalised curves (start 0 / 1); for stretched segments it rests on value = start + (target-start)*normalised being one affine float expression (monotone rounding). Quick decides in-cell monotonicity via C03's slices only in the thorough tier (all 512 slices); the quick tier has monotonicity across cells for all positions (betweenness + monotone tables). Reference RC curves come from lib/oracle.py (documented formula, Python math.exp).",
    tech=K+SL, ref="§4 C01"),
- "C02": dict(text="One-step transition relation of tick()/gate_on()/gate_off() from an arbitrary valid envelope state with symbolic sample rate and times (phase order, guards, frame conditions), the exact counter relation incl. increments of several cycles per tick, and increment accuracy per fixed sample rate with times on a 1/1024 s grid, which yields the stated duration window by a two-line calculation.",
-   note="Duration is derived: phase ends on tick ceil(2^24/inc) (counter relation, proved for every inc) and inc lies in the window proved on the time grid for 5 (quick) / 13 (thorough) sample rates; off-grid times and other rates are outside the claim. Histories are covered by induction on the one-step relation.",
+ "C02": dict(text="One-step transition relation of tick()/gate_on()/gate_off() from an arbitrary valid envelope state with symbolic sample rate and times (phase order, guards, frame conditions), the exact counter relation incl. increments of several cycles per tick, and increment accuracy per fixed sample rate (6 quick / 13 thorough) with times on a 1/1024 s grid, which yields the stated duration window by a two-line calculation.",
+   note="Duration is derived: phase ends on tick ceil(2^24/inc) (counter relation, proved for every inc) and inc lies in the window proved on the time grid for 6 (quick) / 13 (thorough) sample rates; off-grid times and other rates are outside the claim. Histories are covered by induction on the one-step relation.",
    tech=K, ref="§4 C02"),
  "C03": dict(text="Continuity decomposed into solver-decided facts: output equals the exact table interpolant within 2^-23 and adjacent counter values differ by at most steepest-slope*step+2ulp (slices of both tables), table endpoint/slope facts through the code's constants, exact hand-over levels at every segment joint, and gate events that restart the curve exactly at the level being output.",
-   note="Per-tick bound for arbitrary increments follows from interpolant+slope facts by the triangle inequality (2*2^-23 slack); scaling to stretched segments is the affine expression argument of C01. Quick = boundary + seeded slices.",
-   tech=K+SL, ref="§4 C03"),
+   note="Per-tick bound for arbitrary increments follows from interpolant+slope facts by the triangle inequality (2*2^-23 slack); scaling to stretched segments is the affine expression argument of C01. Quick = 6 slices per table (boundary + seeded), thorough = all 512 = every counter value.",
+   tech=K+SL, ref="§11.7"),
  "C04": dict(text="Inductive step per note event against an executable reference model (ordered list of outstanding note-ons): from ANY valid receiver state with up to K held notes (K=8 quick, 16 thorough; K=32 for All-Notes-Off), one note-on / note-off / All-Notes-Off leaves gate, note by priority, velocity and the held list equal to the model.",
    note="Handlers are driven directly (handle_note_on/off); that parse() calls the right handler with the right arguments after the right byte is C06's framing harness; both compose to the stream-level claim. Lists longer than the tier's K are outside the claim (K=32 note-off did not finish in 50 min).",
    tech=K, ref="§4 C04"),
@@ -50,10 +50,10 @@ CLAIMED = {
    note="The step-response percentages follow from the pole window and the closed form error = (1-b0)*p^n of a one-pole recurrence (stated assumption); N-step responses are not unrolled. tan replaced by its contract.",
    tech=K+"; Kani stub with contract for the foreign tanf", ref="§11.2 Glide"),
  "C15": dict(text="Inductive step of poll() from any state consistent with an unbroken run of any length against a run-length model (three capacities: 18, 35, 171), plus bounded public-API histories with a symbolic in/out-of-range pattern at small capacities.",
-   note="Histories at capacity 4 (quick) and 9 (thorough); larger capacities by the inductive step (the code is generic in the capacity).",
+   note="Histories at capacities 4 and 9; larger capacities by the inductive step (the code is generic in the capacity).",
    tech=K, ref="§4 C15"),
  "C16": dict(text="Step-level differential on the poll that reports/refreshes the value: buffer filled without branching (left-over samples of an earlier press, then the current run), one real poll(); a second controller differing in the left-over samples and in the samples inside the finger-lift allowance reports the bit-identical value in [0,1]; between-min-max and monotonicity through the public API at capacity 4; settle/allowance counts of new() for every integer rate 100..192000; edge resistor triples through poll(); run-counter invariant shared with C15.",
-   note="Value step at capacity 9 (quick) and 18 (thorough); between/monotone on a 2^-4 grid at capacity 4; resistor triples through poll() are four concrete ones incl. the weakest allowed pull-up (fully symbolic triples only at the level of error_estimate()).",
+   note="Value step at capacity 9 (capacity 18 did not finish in 50 min); between/monotone on a 2^-4 grid at capacity 4; resistor triples through poll() are four concrete ones incl. the weakest allowed pull-up (fully symbolic triples only at the level of error_estimate()).",
    tech=K, ref="§11.2 Ribbon"),
  "C17": dict(text="Kani's built-in checks (overflow, index, division, unwrap, debug_assert, casts) over every harness that drives a public operation with symbolic arguments from an arbitrary valid state, plus public-API call sequences per module and the progress argument (increment >= 1, tick advances or ends the phase).",
    note="Dev-profile semantics (overflow checks and debug assertions on). set_phase is covered by the MIR->SMT range query (C11). Glide at fixed sample rates with tan contract.",
